@@ -118,6 +118,12 @@ def run(ck):
                 ik = orient.get(fshort, 'unknown-enumerate')
             akind = 'row' if (key or '').startswith('row') else 'column' if (key or '').startswith('column') else None
             site = '%s|%s' % (fshort, fld)
+            # which arrays a layout kind may fill: box layouts have the single `stretch` list (uic reads no rowstretch/columnstretch
+            # for them), the grid has the per-row/per-column lists and no `stretch`
+            is_box = fshort in orient
+            ck.ob('R12.1', 'array-belongs-to-layout-kind|' + site, (fld == 'stretch') == is_box, L.loc(c),
+                  '%s fills `%s`' % (fshort, fld) if (fld == 'stretch') == is_box else
+                  '%s records the setting in `%s`: %s' % (fshort, fld, 'a box layout is serialized with `stretch` only, so the value ends up under an attribute uic ignores for it' if is_box else 'a grid has no `stretch` list'), fn=fn['path'])
             if fld == 'stretch':
                 ok = ik in ('row', 'column') and akind == ik and (key or '').endswith('Stretch')
                 ck.ob('R12.1', 'kinds-agree|' + site, ok, L.loc(c), 'box layout: index kind %s, accessor key %s' % (ik, key), fn=fn['path'])
@@ -360,3 +366,34 @@ def run(ck):
             if site.get('kind') == 'let' and adv:
                 ok = H.lexically_precedes_dominating(nx, site['node'].get('init'), adv[0]) and pp(site['node']['init']) == '(self.next_row, self.next_column)'
         ck.ob('R12.4', 'returns-cell-before-advance', ok, L.loc(nx['body']), 'returns the (next_row, next_column) pair captured before the advance')
+
+    # ---- R12.6 recorded settings are never dropped: the per-row/column lists only grow ----------------------------------------------
+    ck.rule('R12.6', 'a recorded per-row/column setting is never lost: the lists only grow')
+    mi = L.fn('uigen::layout::maybe_insert_into_opt_i32_array')
+    if mi is None:
+        ck.floor('R12.6', 0, 1, 'fn maybe_insert_into_opt_i32_array')
+    else:
+        ck.analysed(mi['path'])
+        arr = next((b for b in H.binding_sites(mi).values() if b['kind'] == 'param' and b['index'] == 0), None)
+        shr = [c for c in H.calls_in(mi['body']) if c.get('m') in ('resize', 'resize_with', 'truncate', 'clear', 'pop', 'remove', 'drain', 'swap_remove', 'split_off', 'retain') and
+               arr is not None and (H.root_local(c['recv']) or {}).get('hid') == arr['bind']['hid']]
+        bad = []
+        for c in shr:
+            if c['m'] not in ('resize', 'resize_with'):
+                bad.append('%s()' % c['m'])
+                continue
+            # growing only: under `index >= array.len()` (or `array.len() <= index`, `<`/`>` forms)
+            g = None
+            for a in H.ancestors(mi, c):
+                if a.get('k') == 'If' and any(x is c for x in walk(a['then'])):
+                    t = H.strip_refs(a['c'])
+                    if t.get('k') == 'Binary' and t.get('op') in ('Ge', 'Gt', 'Le', 'Lt'):
+                        l_len = any(x.get('m') == 'len' for x in H.calls_in(t['l']))
+                        r_len = any(x.get('m') == 'len' for x in H.calls_in(t['r']))
+                        if (t['op'] in ('Ge', 'Gt') and r_len and not l_len) or (t['op'] in ('Le', 'Lt') and l_len and not r_len):
+                            g = a
+            if g is None:
+                bad.append('%s() without `index >= len` in front' % c['m'])
+        ck.ob('R12.6', 'lists-only-grow', not bad and bool(shr), L.loc(shr[0]) if shr else L.loc(mi['body']),
+              'the list is resized only under `index >= array.len()`: existing entries stay' if not bad and shr else
+              'the list can shrink (%s): Vec::resize_with also truncates, so filling a lower empty slot drops the settings recorded at higher indices' % bad, fn=mi['path'])
